@@ -2025,6 +2025,13 @@ func (sc *serverConn) writeLoop() {
 
 func (sc *serverConn) handleSettings(st *Settings) {
 	st.applyTo(&sc.clientS)
+
+	// The lowest value the frame went through comes first: the encoder has to
+	// tell the peer about it even when the frame ends on a higher one.
+	if st.has(HeaderTableSize) {
+		sc.enc.SetMaxTableSize(st.tableSizeLow)
+	}
+
 	sc.enc.SetMaxTableSize(sc.clientS.HeaderTableSize())
 
 	// The per-stream send windows are adjusted in handleStreams, where the
